@@ -1,6 +1,7 @@
 package main
 
 import (
+	"github.com/spf13/viper"
 	"strings"
 	"fmt"
 	"math"
@@ -184,6 +185,13 @@ func ulpTau(m float64) float64 {
 func checkC08(ctx *Ctx, rig *c08Rig, c *c08Case) {
 	configuration.CurrentConfig.TempRollingWindowSize = c.Window
 	configuration.CurrentConfig.RpmRollingWindowSize = 37 // a different, valid value: only the temperature window counts here
+	if c.Window >= 1 && (c.Window <= 2 || hashStr(jsonStr(c))%8 == 0) {
+		// the window as the user sets it: in a configuration file read by fan2go's loader
+		if err := c08WindowViaLoader(ctx, c.Window); err != nil {
+			ctx.Violation("config-path:documented-window-size-not-loadable", fmt.Sprintf("tempRollingWindowSize: %d: %v", c.Window, err), c)
+			return
+		}
+	}
 	s := rig.sensor
 	s.SetMovingAvg(c.Init)
 	lo, hi := c.Init, c.Init
@@ -407,4 +415,26 @@ func c08TimeLimitError(err error) bool {
 		}
 	}
 	return false
+}
+
+func c08WindowViaLoader(ctx *Ctx, window int) error {
+	dir := ctx.Path(uniqueId("c08cfg"))
+	_ = os.MkdirAll(dir, 0755)
+	defer os.RemoveAll(dir)
+	sf := filepath.Join(dir, "sensor")
+	_ = os.WriteFile(sf, []byte("40000\n"), 0644)
+	text := fmt.Sprintf("dbPath: %s/fan2go.db\ntempRollingWindowSize: %d\nrpmRollingWindowSize: 37\nsensors:\n  - id: s\n    file:\n      path: %s\ncurves:\n  - id: c\n    linear:\n      sensor: s\n      min: 40\n      max: 80\nfans:\n  - id: f\n    curve: c\n    file:\n      path: %s\n", dir, window, sf, sf)
+	cfgPath := filepath.Join(dir, "fan2go.yaml")
+	_ = os.WriteFile(cfgPath, []byte(text), 0644)
+	viper.Reset()
+	var lerr error
+	if p, msg := Guard(func() {
+		configuration.InitConfig(cfgPath)
+		if lerr = viper.ReadInConfig(); lerr == nil {
+			configuration.LoadConfig()
+		}
+	}); p {
+		return fmt.Errorf("loader panicked: %s", firstLine(msg))
+	}
+	return lerr
 }
